@@ -105,6 +105,18 @@ func NewApp() *App {
 			rec.React = "kill"
 			rec.ReactOK = a.k.KillRequestContext(ctx, id, rc.Consumer) == nil
 		}
+		if a.cur.stateCbKillOthers {
+			// ... or by giving up its other contexts as well
+			for _, other := range a.cur.moduleContexts(ctx) {
+				if other != hexs(id) {
+					orc, _ := a.cur.rawContext(ctx, unhex(other))
+					if orc.State != types.COMPLETED && orc.Repeated {
+						ok := a.k.KillRequestContext(ctx, unhex(other), orc.Consumer) == nil
+						a.cur.cbLog = append(a.cur.cbLog, CallbackRec{Kind: "react", CtxID: other, React: "kill", ReactOK: ok})
+					}
+				}
+			}
+		}
 		a.cur.cbLog = append(a.cur.cbLog, rec)
 	}))
 	// a second module that registered a response callback only: contexts cannot be created for it
@@ -129,6 +141,10 @@ func NewApp() *App {
 	return a
 }
 
+func (a *App) appModule() service.AppModule {
+	return service.NewAppModule(a.app.AppCodec(), a.k, a.app.AccountKeeper, a.app.BankKeeper)
+}
+
 // Actor is a named address.
 type Actor struct {
 	Name string
@@ -150,10 +166,32 @@ type World struct {
 	hasModSvc bool
 	stateCbKill bool // the verifmod double kills a context from inside its state callback
 	viaApp bool      // end-of-block through the application's module manager
+	stateCbKillOthers bool // the double also kills its other contexts from inside the state callback
 
 	tracked    map[string]string // addr hex -> name, accounts whose balance is observed
 	trackedOrd []string
 	actors     map[string]sdk.AccAddress
+}
+
+// moduleContexts lists (raw scan) the IDs of the contexts owned by the verifmod double.
+func (w *World) moduleContexts(ctx sdk.Context) []string {
+	store := ctx.KVStore(w.a.app.GetKey(types.StoreKey))
+	it := sdk.KVStorePrefixIterator(store, []byte{0x08})
+	defer it.Close()
+	var out []string
+	for ; it.Valid(); it.Next() {
+		var rc types.RequestContext
+		if rc.Unmarshal(it.Value()) == nil && rc.ModuleName == verifModule {
+			out = append(out, hexs(it.Key()[1:]))
+		}
+	}
+	return out
+}
+
+// InstallGhostContext writes, the way a genesis import does, a paused context that belongs
+// to a module the application no longer wires (no callbacks registered for it).
+func (w *World) InstallGhostContext(id []byte, rc types.RequestContext) {
+	w.a.k.SetRequestContext(w.ctx, id, rc)
 }
 
 func (w *World) rawContext(ctx sdk.Context, id []byte) (types.RequestContext, bool) {
@@ -394,7 +432,6 @@ func errCode(err error) string {
 // to the next block, dt later.
 func (w *World) EndBlock(dt time.Duration) (res StepResult) {
 	w.cbLog = nil
-	var viaEvents []EventRec
 	ctx := w.curCtx().WithEventManager(sdk.NewEventManager())
 	t0 := time.Now()
 	func() {
@@ -405,16 +442,11 @@ func (w *World) EndBlock(dt time.Duration) (res StepResult) {
 			}
 		}()
 		if w.viaApp {
-			// through the application's module manager (module.go AppModule.EndBlock), together
-			// with the end blockers of crisis / gov / staking, as on a node
-			resp := w.a.app.EndBlocker(ctx, abci.RequestEndBlock{Height: w.height})
-			for _, e := range resp.Events {
-				er := EventRec{Type: e.Type, Attrs: map[string]string{}}
-				for _, a := range e.Attributes {
-					er.Attrs[string(a.Key)] = string(a.Value)
-				}
-				viaEvents = append(viaEvents, er)
-			}
+			// through the module's own AppModule.EndBlock (module.go), as the application's module
+			// manager calls it. The other modules' end blockers are deliberately not run: simapp's
+			// crisis module asserts the bank invariants every 5 blocks, and those panic as soon as
+			// any account whose address is shorter than 20 bytes holds coins (see DESIGN.md, 9)
+			w.a.appModule().EndBlock(ctx, abci.RequestEndBlock{Height: w.height})
 		} else {
 			service.EndBlocker(ctx, w.a.k)
 		}
@@ -422,9 +454,6 @@ func (w *World) EndBlock(dt time.Duration) (res StepResult) {
 	}()
 	res.WallNs = time.Since(t0).Nanoseconds()
 	res.Events = convEvents(ctx.EventManager().Events())
-	if w.viaApp {
-		res.Events = viaEvents
-	}
 	res.Callbacks = w.cbLog
 	w.cbLog = nil
 	w.height++
